@@ -82,7 +82,10 @@ pub fn new_boxed<T: MaybeDynSized<Metadata = usize> + ?Sized>(
 /// Clones a [`MaybeDynSized`] by calling [`new_boxed`].
 #[must_use]
 pub fn clone_dyn<T: MaybeDynSized<Metadata = usize> + ?Sized>(tag: &T) -> Box<T> {
-    new_boxed(tag.header().clone(), &[tag.payload()])
+    // `payload()` includes the terminating padding. The clone must report the
+    // same size as the original.
+    let payload_len = tag.header().payload_len();
+    new_boxed(tag.header().clone(), &[&tag.payload()[..payload_len]])
 }
 
 #[cfg(test)]
